@@ -298,7 +298,11 @@ def main(argv):
     # ---- classify violations against the known findings ---------------------------------------
     known = [k for k in load_known() if k.get("property") == prop]
     open_sigs = {k["signature"]: k for k in known if k.get("status") == "open"}
-    os.makedirs(os.path.join(VERIF, "replays", prop), exist_ok=True)
+    # witnesses of this run only: /verif/replays/<prop>/ for the tree under /repo, a directory under .work for any other
+    # tree (scratch copies used to try seeded changes must not leave witnesses beside those of /repo)
+    replay_root = os.path.join(VERIF, "replays") if repo == "/repo" else os.path.join(WORK, "replays-" + srchash)
+    shutil.rmtree(os.path.join(replay_root, prop), ignore_errors=True)
+    os.makedirs(os.path.join(replay_root, prop), exist_ok=True)
     new_violations, known_hits = [], {}
     for v in violations:
         if v["signature"] in open_sigs:
@@ -318,7 +322,7 @@ def main(argv):
         if h in seen:
             continue
         seen.add(h)
-        path = os.path.join(VERIF, "replays", prop, f"{h}.json")
+        path = os.path.join(replay_root, prop, f"{h}.json")
         with open(path, "w") as f:
             json.dump({"property": prop, **v}, f, indent=1, default=str)
         per_sig[v["signature"]] = per_sig.get(v["signature"], 0) + 1
